@@ -4,11 +4,16 @@ go 1.16
 
 require (
 	github.com/ipfs/go-cid v0.0.7
+	github.com/ipfs/go-ipfs-chunker v0.0.5
+	github.com/ipfs/go-ipfs-files v0.0.8
 	github.com/ipfs/go-ipld-cbor v0.0.5
+	github.com/ipfs/go-merkledag v0.3.2
+	github.com/ipfs/go-path v0.0.9
 	github.com/ipfs/ipfs-cluster v0.0.0
 	github.com/libp2p/go-libp2p-core v0.8.5
 	github.com/libp2p/go-libp2p-gorpc v0.1.3
 	github.com/multiformats/go-multiaddr v0.3.3
+	github.com/multiformats/go-multibase v0.0.3
 	github.com/multiformats/go-multihash v0.0.15
 )
 
